@@ -135,6 +135,28 @@ Theorem C29_exit : forall c st cl w r st' w',
 Proof. exact exit_spec. Qed.
 Print Assumptions C29_exit.
 
+(* A FilerDoer around the Filer (run by a Doist): enter(temp) reopens only a
+   Filer that is not opened; for an opened Filer it changes nothing at all —
+   not the tree, not .path, not .temp.  The doer's exit is the
+   context-manager exit without a clear request, so C29_exit applies to it. *)
+Theorem C29_doer_enter_opened : forall c st t w,
+  run_hop2 c st true (HDoerEnter t) w = (Ok tt, st, true, w).
+Proof. exact doer_enter_opened. Qed.
+Print Assumptions C29_doer_enter_opened.
+
+Theorem C29_doer_exit : forall c st op w,
+  run_hop2 c st op HDoerExit w =
+  let '(r, st', w') := run_hop c st (HExit false) w in (r, st', false, w').
+Proof. exact doer_exit_is_exit. Qed.
+Print Assumptions C29_doer_exit.
+
+(* Every history of reopen / close / remake / context-manager exit / doer
+   enter / doer exit calls after a successful constructor, call by call. *)
+Theorem C29_history_doer : forall c w p w1 hs,
+  env_all c w -> c_tmp c <> [] -> remake c w = (Ok p, w1) -> hist2_ok c (born c p) true hs w1.
+Proof. exact constructor_history2_ok. Qed.
+Print Assumptions C29_history_doer.
+
 (* Non-vacuity of the history theorems: persistent filed Filer "b/x" with a
    sibling's file next to it; reopen(temp=True, clear=True) removes only its
    own file and moves into tmp/T0; the sibling is still there; a final
@@ -148,12 +170,15 @@ Example C29_history_example :
   let w := {| w_fs := [([s 104], false); ([s 97], false); ([s 116], false); ([s 104; HIO], false);
                        ([s 104; HIO; s 98], false); sib]%N; w_log := [] |} in
   forall p w1, remake c w = (Ok p, w1) ->
-  let obs := run_hops c (born c p) [HReopen (Some true) None true false false; HExit false] w1 in
-  map (fun o => fst (fst o)) obs = [Ok tt; Ok tt] /\
-  map (fun o => snd (fst o)) obs = [Some [s 116; [84; 48]; HIO; s 98; [120; 46; 116]]%N;
+  let obs := run_hops c (born c p) true [H (HReopen (Some true) None true false false); HDoerEnter (Some false);
+                                         HDoerExit] w1 in
+  map (fun o => fst (fst (fst o))) obs = [Ok tt; Ok tt; Ok tt] /\
+  map (fun o => snd (fst o)) obs = [true; true; true] /\
+  map (fun o => snd (fst (fst o))) obs = [Some [s 116; [84; 48]; HIO; s 98; [120; 46; 116]]%N;
+                                    Some [s 116; [84; 48]; HIO; s 98; [120; 46; 116]]%N;
                                     Some [s 116; [84; 48]; HIO; s 98; [120; 46; 116]]%N] /\
   Forall (fun o => existsb (entry_eqb sib) (snd o) = true) obs /\
-  (forall o, nth_error obs 1 = Some o -> same_fs (snd o) (w_fs w) = true).
+  (forall o, nth_error obs 2 = Some o -> same_fs (snd o) (w_fs w) = true).
 Proof.
   cbv zeta. intros p w1 H. vm_compute in H. inversion H; subst; clear H.
   vm_compute. repeat split; repeat constructor. intros o Ho. inversion Ho; subst. reflexivity.
